@@ -310,8 +310,11 @@ def gen_structure(rng, n_nodes: int, depth_max: int, cyclic: bool) -> tuple[Spec
 
 
 def with_orders(spec: Spec, orders: list[list[int]]) -> Spec:
-    return {"graphs": [{"nin": g["nin"], "order": list(o)} for g, o in zip(spec["graphs"], orders)],
-            "nodes": spec["nodes"], "detached": spec.get("detached", [])}
+    out = {"graphs": [{"nin": g["nin"], "order": list(o)} for g, o in zip(spec["graphs"], orders)],
+           "nodes": spec["nodes"], "detached": spec.get("detached", [])}
+    if spec.get("names"):
+        out["names"] = spec["names"]
+    return out
 
 
 def dangling_capture_nodes(spec: Spec) -> list[int]:
@@ -462,7 +465,7 @@ def exhaustive_spec(n: int, mask: int, perm: int, shape: str) -> Spec:
 # ---------------------------------------------------------------------------------------------
 def remove_nodes(spec: Spec, doomed: set[int], sub: int | None = None,
                  doomed_graphs: set[int] | None = None,
-                 doomed_detached: set[int] | None = None) -> tuple[Spec, int | None] | None:
+                 doomed_detached: set[int] | None = None, maps: dict | None = None) -> tuple[Spec, int | None] | None:
     """Remove nodes and/or attribute graphs (with everything nested in them); references to
     removed outputs become None; an attribute left without graphs is dropped.
     Returns (new spec, remapped ``sub`` graph id) or None if ``sub`` would disappear."""
@@ -514,6 +517,12 @@ def remove_nodes(spec: Spec, doomed: set[int], sub: int | None = None,
     detached = [dict(d, scope=gmap[d["scope"]], inputs=[fix(r) for r in d["inputs"]])
                 for did, d in enumerate(spec.get("detached", [])) if did in dmap]
     new = {"graphs": graphs, "nodes": nodes, "detached": detached}
+    if maps is not None:
+        maps.update({"n": nmap, "g": gmap, "d": dmap})
+    if spec.get("names"):
+        names = [[w, nm] for w, nm in ([remap_what(w, nmap, gmap), nm] for w, nm in spec["names"]) if w is not None]
+        if names:
+            new["names"] = names
     if "history" in spec:
         # the same moves without the removed nodes; a move whose anchor is gone is dropped
         h = spec["history"]
@@ -533,13 +542,21 @@ def remove_nodes(spec: Spec, doomed: set[int], sub: int | None = None,
     return new, (gmap[sub] if sub is not None else None)
 
 
+def remap_what(what: list, nmap: dict, gmap: dict) -> list | None:
+    """The subject of a name entry (["n", node] | ["v", node, output] | ["i", graph, input]) after a reduction."""
+    if what[0] == "i":
+        return ["i", gmap[what[1]], what[2]] if what[1] in gmap else None
+    return [what[0], nmap[what[1]], *what[2:]] if what[1] in nmap else None
+
+
 def drop_input(spec: Spec, nid: int, slot: int, to_none: bool, detached: bool = False) -> Spec:
     if detached:
         flipped = {"graphs": spec["graphs"], "nodes": spec.get("detached", [])}
         out = {"graphs": spec["graphs"], "nodes": spec["nodes"],
                "detached": drop_input(flipped, nid, slot, to_none)["nodes"]}
-        if "history" in spec:
-            out["history"] = spec["history"]
+        for key in ("history", "names"):
+            if key in spec:
+                out[key] = spec[key]
         return out
     nodes = []
     for k, n in enumerate(spec["nodes"]):
@@ -552,8 +569,9 @@ def drop_input(spec: Spec, nid: int, slot: int, to_none: bool, detached: bool = 
             n = dict(n, inputs=ins)
         nodes.append(n)
     out = {"graphs": spec["graphs"], "nodes": nodes, "detached": spec.get("detached", [])}
-    if "history" in spec:
-        out["history"] = spec["history"]
+    for key in ("history", "names"):
+        if key in spec:
+            out[key] = spec[key]
     return out
 
 
@@ -591,6 +609,8 @@ def describe(spec: Spec) -> str:
     for did, d in enumerate(spec.get("detached", [])):
         how = "never added to a graph" if d["how"] == "never" else f"was in g{d['scope']} at position {d['pos']}, then g{d['scope']}.remove(d{did})"
         lines.append(f"detached d{did}({', '.join(ref(r) for r in d['inputs'])}) [{how}]")
+    if spec.get("names"):
+        lines.append("names set after construction: " + ", ".join(f"{describe_what(w)}.name = {nm!r}" for w, nm in spec["names"]))
     if "history" in spec:
         lines.append(describe_history(spec))
     return "\n".join(lines)
@@ -955,3 +975,512 @@ def describe_history(spec: Spec) -> str:
         fl = sorted(res[1][k]) if res is not None else []
         lines.append(f"  {call}" + (f"   # {', '.join(fl)}" if fl else ""))
     return "\n".join(lines)
+
+
+# ---------------------------------------------------------------------------------------------
+# names: nodes / values whose name is cleared (None) or emptied ("") after they were put in a graph
+# ---------------------------------------------------------------------------------------------
+# ``"names": [[what, name], ...]`` with what ::= ["n", node] | ["v", node, output] | ["i", graph, input];
+# applied in order, through the public ``name`` setters, after the graphs are complete (a node put
+# in a graph is given a name; the setters accept None and "" afterwards).  Names are part of
+# what is built identically for a twin.
+def describe_what(what: list) -> str:
+    if what[0] == "n":
+        return f"n{what[1]}"
+    if what[0] == "v":
+        return f"n{what[1]}.outputs[{what[2]}]"
+    return f"g{what[1]}.inputs[{what[2]}]"
+
+
+def gen_names(rng, spec: Spec) -> list:
+    nodes = spec["nodes"]
+    if not nodes:
+        return []
+    out = []
+    mode = rng.choice(["all", "one", "one", "some", "some", "some"])
+    blank = rng.choice([None, None, None, "", "mixed"])
+
+    def nm():
+        return rng.choice([None, None, ""]) if blank == "mixed" else blank
+
+    picked = list(range(len(nodes))) if mode == "all" else \
+        [rng.randrange(len(nodes))] if mode == "one" else \
+        [j for j in range(len(nodes)) if rng.random() < 0.35] or [rng.randrange(len(nodes))]
+    for j in picked:
+        out.append([["n", j], nm()])
+    if rng.random() < 0.5:
+        for j, n in enumerate(nodes):
+            for o in range(n["nout"]):
+                if rng.random() < (0.6 if j in picked else 0.15):
+                    out.append([["v", j, o], nm()])
+        for gid, gr in enumerate(spec["graphs"]):
+            for k in range(gr["nin"]):
+                if rng.random() < 0.2:
+                    out.append([["i", gid, k], nm()])
+    rng.shuffle(out)
+    return out
+
+
+def unnamed_nodes(spec: Spec) -> set[int]:
+    """Nodes whose name is None or "" when the sort runs."""
+    cur: dict[int, Any] = {}
+    for what, name in spec.get("names", []):
+        if what[0] == "n":
+            cur[what[1]] = name
+    return {j for j, name in cur.items() if not name}
+
+
+# ---------------------------------------------------------------------------------------------
+# stages: edits made to a structure AFTER it was sorted, followed by another sort
+# ---------------------------------------------------------------------------------------------
+# A case may carry ``"stages": [[edit, ...], ...]``.  After the first sort the edits of stage 0 are
+# applied to the live objects through the public API and the same entry point is called again, then
+# stage 1, ...  Each sort is an evaluation of its own: what it is given is (the structure after the
+# edits, the order every graph has at that moment), and that is all the result may depend on.
+# An edit is a dict with "u" (unit) and "op":
+#
+#   rewire    node, slot, ref, grow   Node.replace_input_with(slot, value|None)  (grow: after resize_inputs(+1))
+#   rauw      value, by               Value.replace_all_uses_with(value)
+#   add_attr  node, name, kind, graphs=[{"nin", "nodes": [{"nout", "inputs"}]}]   node.attributes[name] = AttrGraph/AttrGraphs
+#   add_node  g, where=["append"]|["before", n]|["after", n], nout, inputs       a new node put into graph g
+#   move      move=[kind, graph, anchor, [nodes], form]                          as in histories (no remove)
+#   rename    what, name              the public name setters
+#
+# New nodes / graphs take the next free ids in the order they are listed.  Edits keep the structure
+# lexically well scoped.  None of rewire / rauw / add_attr / rename goes through the node list of
+# any existing graph.
+EDIT_API = {
+    "rewire": "Node.replace_input_with", "rauw": "Value.replace_all_uses_with",
+    "add_attr": "Node.attributes[name]=graph(s)", "add_node": "new-node", "move": "move", "rename": "name=None/empty",
+}
+
+
+def nodes_of(spec: Spec, gid: int) -> list[int]:
+    return [j for j, n in enumerate(spec["nodes"]) if n["g"] == gid]
+
+
+def graph_chain(spec: Spec, own: dict[int, int], gid: int) -> list[int]:
+    out = [gid]
+    while out[-1] in own:
+        out.append(spec["nodes"][own[out[-1]]]["g"])
+    return out
+
+
+def apply_edit(spec: Spec, e: dict) -> Spec:
+    """The structure after the edit (orders: new nodes are placed where the edit says according to
+    the list model; the caller overrides the orders with the observed ones anyway)."""
+    graphs = [{"nin": g["nin"], "order": list(g["order"])} for g in spec["graphs"]]
+    nodes = [dict(n, inputs=list(n["inputs"]), attrs=[[a[0], a[1], list(a[2])] for a in n["attrs"]]) for n in spec["nodes"]]
+    detached = [dict(d, inputs=list(d["inputs"])) for d in spec.get("detached", [])]
+    names = [list(x) for x in spec.get("names", [])]
+    op = e["op"]
+    if op == "rewire":
+        ins = nodes[e["node"]]["inputs"]
+        if e.get("grow"):
+            assert e["slot"] == len(ins)
+            ins.append(None)
+        ins[e["slot"]] = e["ref"]
+    elif op == "rauw":
+        for n in nodes + detached:
+            n["inputs"] = [e["by"] if r == e["value"] else r for r in n["inputs"]]
+    elif op == "add_attr":
+        gids = []
+        for gs in e["graphs"]:
+            gid = len(graphs)
+            gids.append(gid)
+            graphs.append({"nin": gs["nin"], "order": []})
+            for ns in gs["nodes"]:
+                graphs[gid]["order"].append(len(nodes))
+                nodes.append({"g": gid, "nout": ns["nout"], "inputs": list(ns["inputs"]), "attrs": []})
+        nodes[e["node"]]["attrs"].append([e["name"], e["kind"], gids])
+    elif op == "add_node":
+        o = graphs[e["g"]]["order"]
+        w = e["where"]
+        k = len(o) if w[0] == "append" or w[1] not in o else o.index(w[1]) + (1 if w[0] == "after" else 0)
+        o.insert(k, len(nodes))
+        nodes.append({"g": e["g"], "nout": e["nout"], "inputs": list(e["inputs"]), "attrs": []})
+    elif op == "move":
+        model_move(graphs[e["move"][1]]["order"], set(), e["move"])
+    elif op == "rename":
+        names = [x for x in names if x[0] != e["what"]] + [[e["what"], e["name"]]]
+    else:
+        raise AssertionError(op)
+    out = {"graphs": graphs, "nodes": nodes, "detached": detached}
+    if names:
+        out["names"] = names
+    return out
+
+
+def _pick_ref(rng, spec: Spec, chain_g: list[int], p_own: float = 0.6, exclude: int | None = None):
+    """A value visible from the innermost graph of ``chain_g``: an output of a node of one of the
+    graphs of the chain, or one of their inputs; None if there is none."""
+    g = chain_g[0] if (len(chain_g) == 1 or rng.random() < p_own) else rng.choice(chain_g[1:])
+    if rng.random() < 0.12:
+        with_inputs = [x for x in chain_g if spec["graphs"][x]["nin"]]
+        if with_inputs:
+            x = rng.choice(with_inputs)
+            return ["i", x, rng.randrange(spec["graphs"][x]["nin"])]
+    cands = [i for i in nodes_of(spec, g) if spec["nodes"][i]["nout"] and i != exclude]
+    if not cands:
+        cands = [i for x in chain_g for i in nodes_of(spec, x) if spec["nodes"][i]["nout"] and i != exclude]
+    if not cands:
+        return None
+    i = rng.choice(cands)
+    return ["n", i, rng.randrange(spec["nodes"][i]["nout"])]
+
+
+def _gen_edit(rng, spec: Spec, u: int, avoid_graph: int | None) -> dict | None:
+    """One edit of the structure ``spec``.  ``avoid_graph``: the graph whose sort() is called; its
+    own node list is mostly left alone (moves / new nodes go to the other graphs)."""
+    nodes, graphs = spec["nodes"], spec["graphs"]
+    if not nodes:
+        return None
+    own = owners(spec)
+    op = rng.choice(["rewire"] * 9 + ["rauw"] * 3 + ["add_attr"] * 2 + ["add_node"] * 2 + ["move"] * 3 + ["rename"] * 2)
+    if op == "rewire":
+        r = rng.random()
+        j = ref = None
+        if r < 0.15:
+            # close a cycle: a producer starts to use an output of one of its (transitive) dependants
+            pairs = [pr for c in spec_constraints(spec) for pr in sorted(c) if nodes[pr[1]]["nout"] and pr[0] != pr[1]]
+            if pairs:
+                p, n, _k = rng.choice(pairs)
+                j, ref = p, ["n", n, rng.randrange(nodes[n]["nout"])]
+        if j is None:
+            j = rng.randrange(len(nodes))
+            if r > 0.88 and nodes[j]["inputs"]:
+                ref = None
+            else:
+                ref = _pick_ref(rng, spec, graph_chain(spec, own, nodes[j]["g"]), exclude=j if rng.random() < 0.85 else None)
+        ins = nodes[j]["inputs"]
+        if not ins or rng.random() < 0.3:
+            return {"u": u, "op": op, "node": j, "slot": len(ins), "ref": ref, "grow": True}
+        return {"u": u, "op": op, "node": j, "slot": rng.randrange(len(ins)), "ref": ref}
+    if op == "rauw":
+        used = sorted({tuple(r) for n in nodes for r in n["inputs"] if r is not None and r[0] in "ni"})
+        if not used:
+            return None
+        value = list(rng.choice(used))
+        home = nodes[value[1]]["g"] if value[0] == "n" else value[1]
+        by = _pick_ref(rng, spec, graph_chain(spec, own, home), p_own=0.75)
+        if by is None:
+            return None
+        return {"u": u, "op": op, "value": value, "by": by}
+    if op == "add_attr":
+        depth = graph_depths(spec)
+        cands = [j for j, n in enumerate(nodes) if depth[n["g"]] < 4]
+        if not cands:
+            return None
+        j = rng.choice(cands)
+        free = [nm for nm in ("body", "then_branch", "else_branch", "branches", "extra") if nm not in [a[0] for a in nodes[j]["attrs"]]]
+        if not free:
+            return None
+        kind = rng.choice(["G", "G", "GS"])
+        chain_g = graph_chain(spec, own, nodes[j]["g"])
+        new_graphs = []
+        nid, gid = len(nodes), len(graphs)
+        for _ in range(1 if kind == "G" else rng.choice([1, 2])):
+            cnt = rng.choice([1, 1, 2, 3])
+            nouts = [rng.choice([1, 1, 2, 0]) for _ in range(cnt)]
+            gs = {"nin": rng.choice([0, 0, 1]), "nodes": []}
+            for k in range(cnt):
+                ins = []
+                for _i in range(rng.choice([0, 1, 1, 2])):
+                    x = rng.random()
+                    inner = [q for q in range(cnt) if nouts[q] and q != k]
+                    if x < 0.35 and inner:
+                        q = rng.choice(inner)
+                        ins.append(["n", nid + q, rng.randrange(nouts[q])])
+                    elif x < 0.42 and gs["nin"]:
+                        ins.append(["i", gid, 0])
+                    elif x < 0.5:
+                        ins.append(None)
+                    else:
+                        ins.append(_pick_ref(rng, spec, chain_g, p_own=0.5, exclude=j if rng.random() < 0.9 else None))
+                gs["nodes"].append({"nout": nouts[k], "inputs": ins})
+            nid += cnt
+            gid += 1
+            new_graphs.append(gs)
+        return {"u": u, "op": op, "node": j, "name": rng.choice(free), "kind": kind, "graphs": new_graphs}
+    # the edits below go through the node list of one graph
+    pool = [g for g in range(len(graphs)) if g != avoid_graph and (op == "add_node" or len(graphs[g]["order"]) >= 2)]
+    if (not pool or rng.random() < 0.2) and avoid_graph is not None and (op == "add_node" or len(graphs[avoid_graph]["order"]) >= 2):
+        pool = [avoid_graph]
+    if op == "add_node":
+        if not pool:
+            return None
+        g = rng.choice(pool)
+        members = graphs[g]["order"]
+        chain_g = graph_chain(spec, own, g)
+        where = ["append"] if not members or rng.random() < 0.3 else [rng.choice(["before", "after"]), rng.choice(members)]
+        ins = [None if rng.random() < 0.15 else _pick_ref(rng, spec, chain_g) for _ in range(rng.choice([0, 1, 1, 2]))]
+        return {"u": u, "op": op, "g": g, "where": where, "nout": rng.choice([1, 1, 2, 0]), "inputs": ins}
+    if op == "move":
+        if not pool:
+            return None
+        g = rng.choice(pool)
+        members = graphs[g]["order"]
+        kind = rng.choice(MOVE_KINDS[:-1])
+        moved = rng.sample(members, min(len(members), rng.choice([1, 1, 1, 2, 3])))
+        if kind == "Graph.append":
+            return {"u": u, "op": op, "move": [kind, g, None, moved[:1], "node"]}
+        if kind == "Graph.extend":
+            return {"u": u, "op": op, "move": [kind, g, None, moved, _form(rng, len(moved), False)]}
+        return {"u": u, "op": op, "move": [kind, g, rng.choice(members), moved, _form(rng, len(moved))]}
+    if op == "rename":
+        x = rng.random()
+        j = rng.randrange(len(nodes))
+        if x < 0.7 or not nodes[j]["nout"]:
+            what = ["n", j]
+        else:
+            what = ["v", j, rng.randrange(nodes[j]["nout"])]
+        return {"u": u, "op": op, "what": what, "name": rng.choice([None, None, ""])}
+    raise AssertionError(op)
+
+
+def gen_stages(rng, units: list[Spec], sub: int | None) -> list[list[dict]]:
+    cur = [strip_history(un) for un in units]
+    stages = []
+    for _ in range(rng.choice([1, 1, 2, 2, 3])):
+        stage = []
+        for _e in range(rng.choice([1, 1, 1, 2, 2, 3])):
+            u = 0 if (len(cur) == 1 or rng.random() < 0.6) else rng.randrange(1, len(cur))
+            e = _gen_edit(rng, cur[u], u, (sub or 0) if u == 0 else 0)
+            if e is None:
+                continue
+            cur[u] = apply_edit(cur[u], e)
+            stage.append(e)
+        if stage:
+            stages.append(stage)
+    return stages
+
+
+def describe_edit(e: dict) -> str:
+    def ref(r):
+        if r is None:
+            return "None"
+        return f"n{r[1]}.outputs[{r[2]}]" if r[0] == "n" else f"g{r[1]}.inputs[{r[2]}]" if r[0] == "i" else f"d{r[1]}.outputs[{r[2]}]"
+
+    op, pre = e["op"], f"u{e['u']}: "
+    if op == "rewire":
+        grow = f"n{e['node']}.resize_inputs({e['slot'] + 1}); " if e.get("grow") else ""
+        return f"{pre}{grow}n{e['node']}.replace_input_with({e['slot']}, {ref(e['ref'])})"
+    if op == "rauw":
+        return f"{pre}{ref(e['value'])}.replace_all_uses_with({ref(e['by'])})"
+    if op == "add_attr":
+        body = "; ".join("[" + ", ".join(f"new({', '.join(ref(r) for r in ns['inputs'])})" for ns in gs["nodes"]) + "]" for gs in e["graphs"])
+        return f"{pre}n{e['node']}.attributes[{e['name']!r}] = {'AttrGraph' if e['kind'] == 'G' else 'AttrGraphs'} of new graph(s) {body} (new ids follow the existing ones)"
+    if op == "add_node":
+        w = e["where"]
+        how = "append(new)" if w[0] == "append" else f"insert_{w[0]}(n{w[1]}, new)"
+        return f"{pre}g{e['g']}.{how} with new = Node({', '.join(ref(r) for r in e['inputs'])})"
+    if op == "move":
+        kind, gid, anchor, moved, form = e["move"]
+        arg = f"n{moved[0]}" if form == "node" else f"{form}({', '.join('n%d' % x for x in moved)})"
+        if kind.startswith("Node."):
+            return f"{pre}n{anchor}.{kind[5:]}({arg})"
+        return f"{pre}g{gid}.{kind[6:]}({'n%d, ' % anchor if anchor is not None else ''}{arg})"
+    if op == "rename":
+        return f"{pre}{describe_what(e['what'])}.name = {e['name']!r}"
+    raise AssertionError(op)
+
+
+def edit_tag(e: dict, sorted_graph: int) -> str:
+    """Mechanism-level name of an edit for signatures."""
+    op = e["op"]
+    if op == "move":
+        return e["move"][0] + ("(sorted graph)" if e["move"][1] == sorted_graph and e["u"] == 0 else "(other graph)")
+    if op == "add_node":
+        return "new-node" + ("(sorted graph)" if e["g"] == sorted_graph and e["u"] == 0 else "(other graph)")
+    return EDIT_API[op]
+
+
+def remap_edit(e: dict, N, Gm) -> dict | None:
+    """The edit with node / graph ids translated by ``N`` / ``Gm`` (-1 = gone).  None if its
+    subject is gone; references to vanished values become None."""
+    def R(r):
+        if r is None:
+            return None
+        if r[0] == "n":
+            x = N(r[1])
+            return None if x == -1 else ["n", x, r[2]]
+        if r[0] == "i":
+            x = Gm(r[1])
+            return None if x == -1 else ["i", x, r[2]]
+        return None  # (references to detached nodes do not occur in edits)
+
+    op = e["op"]
+    if op == "rewire":
+        if N(e["node"]) == -1:
+            return None
+        return dict(e, node=N(e["node"]), ref=R(e["ref"]))
+    if op == "rauw":
+        v, by = R(e["value"]), R(e["by"])
+        return None if v is None or by is None else dict(e, value=v, by=by)
+    if op == "add_attr":
+        if N(e["node"]) == -1:
+            return None
+        return dict(e, node=N(e["node"]),
+                    graphs=[dict(gs, nodes=[dict(ns, inputs=[R(r) for r in ns["inputs"]]) for ns in gs["nodes"]]) for gs in e["graphs"]])
+    if op == "add_node":
+        if Gm(e["g"]) == -1:
+            return None
+        w = e["where"]
+        if w[0] != "append":
+            w = ["append"] if N(w[1]) == -1 else [w[0], N(w[1])]
+        return dict(e, g=Gm(e["g"]), where=w, inputs=[R(r) for r in e["inputs"]])
+    if op == "move":
+        kind, gid, anchor, moved, form = e["move"]
+        moved = [N(x) for x in moved if N(x) != -1]
+        if Gm(gid) == -1 or not moved or (anchor is not None and N(anchor) == -1):
+            return None
+        if form == "node" and len(moved) != 1:
+            form = "list"
+        return dict(e, move=[kind, Gm(gid), None if anchor is None else N(anchor), moved, form])
+    if op == "rename":
+        w = e["what"]
+        x = Gm(w[1]) if w[0] == "i" else N(w[1])
+        return None if x == -1 else dict(e, what=[w[0], x, *w[2:]])
+    raise AssertionError(op)
+
+
+def well_formed(spec: Spec) -> bool:
+    """Every reference exists and is lexically visible; every nested graph has one owner."""
+    nodes, graphs = spec["nodes"], spec["graphs"]
+    try:
+        own = owners(spec)
+    except AssertionError:
+        return False
+    if sorted(x for g in graphs for x in g["order"]) != list(range(len(nodes))):
+        return False
+    if any(nodes[x]["g"] != gid for gid, g in enumerate(graphs) for x in g["order"]):
+        return False
+    if set(own) != set(range(1, len(graphs))):
+        return False
+    for n in nodes:
+        chain_g = graph_chain(spec, own, n["g"])
+        for r in n["inputs"]:
+            if r is None or r[0] == "d":
+                continue
+            if r[0] == "n":
+                if not (0 <= r[1] < len(nodes) and 0 <= r[2] < nodes[r[1]]["nout"] and nodes[r[1]]["g"] in chain_g):
+                    return False
+            elif not (r[1] in chain_g and 0 <= r[2] < graphs[r[1]]["nin"]):
+                return False
+    return True
+
+
+def created_by(spec: Spec, e: dict) -> tuple[int, int]:
+    """(number of nodes, number of graphs) the edit creates."""
+    if e["op"] == "add_node":
+        return 1, 0
+    if e["op"] == "add_attr":
+        return sum(len(gs["nodes"]) for gs in e["graphs"]), len(e["graphs"])
+    return 0, 0
+
+
+def edit_applicable(spec: Spec, e: dict) -> bool:
+    nodes, graphs = spec["nodes"], spec["graphs"]
+    op = e["op"]
+    try:
+        if op == "rewire":
+            k = len(nodes[e["node"]]["inputs"])
+            return e["slot"] == k if e.get("grow") else 0 <= e["slot"] < k
+        if op == "rauw":
+            return e["by"] is not None and e["value"] is not None
+        if op == "add_attr":
+            return e["name"] not in [a[0] for a in nodes[e["node"]]["attrs"]] and bool(e["graphs"])
+        if op == "add_node":
+            return 0 <= e["g"] < len(graphs) and (e["where"][0] == "append" or e["where"][1] in graphs[e["g"]]["order"])
+        if op == "move":
+            kind, gid, anchor, moved, _form = e["move"]
+            members = graphs[gid]["order"]
+            return bool(moved) and all(x in members for x in moved) and (anchor is None or anchor in members) \
+                and (kind != "Graph.append" or len(moved) == 1)
+        if op == "rename":
+            w = e["what"]
+            if w[0] == "i":
+                return 0 <= w[2] < graphs[w[1]]["nin"]
+            return 0 <= w[1] < len(nodes) and (w[0] == "n" or 0 <= w[2] < nodes[w[1]]["nout"])
+    except (IndexError, KeyError, TypeError):
+        return False
+    return False
+
+
+def stages_valid(units: list[Spec], stages: list[list[dict]]) -> bool:
+    cur = [strip_history(un) for un in units]
+    for stage in stages:
+        if not stage:
+            return False
+        for e in stage:
+            if not (0 <= e["u"] < len(cur)) or not edit_applicable(cur[e["u"]], e):
+                return False
+            try:
+                cur[e["u"]] = apply_edit(cur[e["u"]], e)
+            except (IndexError, KeyError, AssertionError, ValueError):
+                return False
+            if not well_formed(cur[e["u"]]):
+                return False
+    return True
+
+
+def drop_edit(units: list[Spec], stages: list[list[dict]], s: int, k: int) -> list[list[dict]] | None:
+    """The stages without edit k of stage s; ids created by it disappear from the later edits."""
+    cur = [strip_history(un) for un in units]
+    target = stages[s][k]
+    for si, stage in enumerate(stages):
+        for ki, e in enumerate(stage):
+            if (si, ki) == (s, k):
+                break
+            cur[e["u"]] = apply_edit(cur[e["u"]], e)
+        else:
+            continue
+        break
+    a, c = len(cur[target["u"]]["nodes"]), len(cur[target["u"]]["graphs"])
+    dn, dg = created_by(cur[target["u"]], target)
+
+    def N(x):
+        return x if x < a else -1 if x < a + dn else x - dn
+
+    def Gm(x):
+        return x if x < c else -1 if x < c + dg else x - dg
+
+    out, after = [], False
+    for si, stage in enumerate(stages):
+        new = []
+        for ki, e in enumerate(stage):
+            if (si, ki) == (s, k):
+                after = True
+                continue
+            if after and e["u"] == target["u"] and (dn or dg):
+                e = remap_edit(e, N, Gm)
+                if e is None:
+                    continue
+            new.append(e)
+        if new:
+            out.append(new)
+    return out if stages_valid(units, out) else None
+
+
+def remap_stages(units_new: list[Spec], stages: list[list[dict]], u: int, maps: dict, n_base: int, g_base: int):
+    """The stages after base nodes / graphs of unit ``u`` were removed (``maps`` from remove_nodes)."""
+    nmap, gmap = maps["n"], maps["g"]
+    n_shift, g_shift = n_base - len(nmap), g_base - len(gmap)
+
+    def N(x):
+        return x - n_shift if x >= n_base else nmap.get(x, -1)
+
+    def Gm(x):
+        return x - g_shift if x >= g_base else gmap.get(x, -1)
+
+    out = []
+    for stage in stages:
+        new = []
+        for e in stage:
+            if e["u"] == u:
+                e = remap_edit(e, N, Gm)
+                if e is None:
+                    return None  # (an edit lost its subject: creations would shift; not attempted)
+            new.append(e)
+        out.append(new)
+    return out if stages_valid(units_new, out) else None
